@@ -1,5 +1,6 @@
 import GrVerif.Model.PassLoad
 import GrVerif.Model.ClassMap
+import GrVerif.Model.RulesLoad
 /-!
 # `Silf::readGraphite`: one Silf sub-table   (C01)
 
@@ -153,7 +154,7 @@ structure PassSlot where
   start : Nat
   stop : Nat
   pt : Nat
-  layout : PassLayout
+  pass : PassAll
   deriving Repr, DecidableEq
 
 /-- an error of the sub-table itself, or of pass `i` -/
@@ -162,9 +163,10 @@ inductive SilfErr where
   | pass (i : Nat) (code : Nat)
   deriving Repr, DecidableEq
 
-/-- the loop over the passes: offsets `o_passes[i]`, `o_passes[i+1]`, the three range tests, the layout part of `readPass` on
-exactly the bytes `[pass_start, pass_end)` with `subtable_base = pass_start` -/
-def readSilfPasses (b : List Nat) (f : SilfFixed) (m : SilfMid) (hasBoxes : Bool) : Nat → Nat → Except Fault (Except SilfErr (List PassSlot))
+/-- the loop over the passes: offsets `o_passes[i]`, `o_passes[i+1]`, the three range tests, `Pass::readPass` on exactly the bytes
+`[pass_start, pass_end)` with `subtable_base = pass_start`, the pass type of `enum passtype` (`passType + 1`) and the limits `fl` the
+code loader takes from the font and the sub-table -/
+def readSilfPasses (b : List Nat) (f : SilfFixed) (m : SilfMid) (hasBoxes : Bool) (fl : FontLimits) : Nat → Nat → Except Fault (Except SilfErr (List PassSlot))
   | 0, _ => .ok (.ok [])
   | n + 1, i => do
     let ps ← be32 b (m.oPasses + i * 4)
@@ -172,12 +174,12 @@ def readSilfPasses (b : List Nat) (f : SilfFixed) (m : SilfMid) (hasBoxes : Bool
     if ps > pe then return .error (.pass i E_BADPASSSTART)
     if ps < m.passesStart then return .error (.pass i E_BADPASSSTART)
     if pe > b.length then return .error (.pass i E_BADPASSEND)
-    match ← readPassLayout ((b.drop ps).take (pe - ps)) ps (passCollOK f m hasBoxes i) with
+    match ← readPassAll ((b.drop ps).take (pe - ps)) ps (passCollOK f m hasBoxes i) fl (passType f i + 1) with
     | .error e => return .error (.pass i e)
-    | .ok L =>
-      match ← readSilfPasses b f m hasBoxes n (i + 1) with
+    | .ok P =>
+      match ← readSilfPasses b f m hasBoxes fl n (i + 1) with
       | .error e => return .error e
-      | .ok rest => return .ok ({ start := ps, stop := pe, pt := passType f i, layout := L } :: rest)
+      | .ok rest => return .ok ({ start := ps, stop := pe, pt := passType f i, pass := P } :: rest)
 
 /-- what `Silf::readGraphite` has established when it returns true (the code loader and the rule records aside) -/
 structure SilfTable where
@@ -196,7 +198,7 @@ def liftE {α} (r : Except Fault (Except Nat α)) : Except Fault (Except SilfErr
   | .ok (.ok a) => .ok (.ok a)
 
 /-- `Silf::readGraphite` -/
-def readSilf (b : List Nat) (version numGlyphs numAttrs : Nat) (hasBoxes : Bool) : Except Fault (Except SilfErr SilfTable) :=
+def readSilf (b : List Nat) (version numGlyphs numAttrs : Nat) (hasBoxes : Bool) (numFeats : Nat := 0) : Except Fault (Except SilfErr SilfTable) :=
   match liftE (readSilfFixed b version numGlyphs) with
   | .error f => .error f
   | .ok (.error e) => .ok (.error e)
@@ -218,7 +220,8 @@ def readSilf (b : List Nat) (version numGlyphs numAttrs : Nat) (hasBoxes : Bool)
   | .ok (.ok cm) =>
   -- `clen > unsigned(passes_start + silf_start - p)`: the number of 16-bit class data against the bytes left
   if cm.data.length > m.passesStart - classAt then .ok (.error (.silf E_BADPASSESSTART)) else
-  match readSilfPasses b f m hasBoxes f.numPasses 0 with
+  -- the limits of the code loader: `silf.numClasses()`, `face.glyphs().numAttrs()`, `face.numFeatures()`, `silf.numUser()`
+  match readSilfPasses b f m hasBoxes { classes := cm.nClass, glyfAttrs := numAttrs, features := numFeats, numUser := m.aUser } f.numPasses 0 with
   | .error x => .error x
   | .ok (.error e) => .ok (.error e)
   | .ok (.ok passes) => .ok (.ok { fixed := f, mid := m, pseudos, classAt, classes := cm, passes })
@@ -228,27 +231,27 @@ def readSilf (b : List Nat) (version numGlyphs numAttrs : Nat) (hasBoxes : Bool)
 /-- the loop of `Face::readGraphite` over the sub-table offsets, which start at `base`: `offset = read<uint32>(p)`,
 `next = i == numSilf - 1 ? size : peek<uint32>(p)`, `next > size || offset >= next` refuses; `n` sub-tables are still to come.
 (The length of the offset table itself is never tested – `silf_subtable_offsets_in_bounds` is why that is all right.) -/
-def readSilfSubs (b : List Nat) (version numGlyphs numAttrs : Nat) (hasBoxes : Bool) (base : Nat) :
+def readSilfSubs (b : List Nat) (version numGlyphs numAttrs : Nat) (hasBoxes : Bool) (numFeats : Nat) (base : Nat) :
     Nat → Nat → Except Fault (Except SilfErr (List SilfTable))
   | 0, _ => .ok (.ok [])
   | n + 1, i => do
     let offset ← be32 b (base + i * 4)
     let next ← (if n = 0 then pure b.length else be32 b (base + (i + 1) * 4))
     if next > b.length ∨ offset ≥ next then return .error (.silf E_BADSIZE)
-    match ← readSilf ((b.drop offset).take (next - offset)) version numGlyphs numAttrs hasBoxes with
+    match ← readSilf ((b.drop offset).take (next - offset)) version numGlyphs numAttrs hasBoxes numFeats with
     | .error e => return .error e
     | .ok t =>
-      match ← readSilfSubs b version numGlyphs numAttrs hasBoxes base n (i + 1) with
+      match ← readSilfSubs b version numGlyphs numAttrs hasBoxes numFeats base n (i + 1) with
       | .error e => return .error e
       | .ok rest => return .ok (t :: rest)
 
 /-- `Face::readGraphite(silf)` on the bytes of the Silf table (which exists: `E_NOSILF` is the caller's case) -/
-def readSilfTable (b : List Nat) (numGlyphs numAttrs : Nat) (hasBoxes : Bool) : Except Fault (Except SilfErr (List SilfTable)) := do
+def readSilfTable (b : List Nat) (numGlyphs numAttrs : Nat) (hasBoxes : Bool) (numFeats : Nat := 0) : Except Fault (Except SilfErr (List SilfTable)) := do
   if b.length < 20 then return .error (.silf E_BADSIZE)
   let version ← be32 b 0
   if version < 0x00020000 then return .error (.silf E_TOOOLD)
   let base := if version ≥ 0x00030000 then 12 else 8
   let numSilf ← be16 b (base - 4)
-  readSilfSubs b version numGlyphs numAttrs hasBoxes base numSilf 0
+  readSilfSubs b version numGlyphs numAttrs hasBoxes numFeats base numSilf 0
 
 end GrVerif.Loader
